@@ -361,39 +361,43 @@ def entryEvents : Char → List Ev
   | 'B' => [Ev.enter .blockCall]
   | _ => []
 
-/-- the cycle, unrolled: visit `t` does the work frames of node `t mod n`, then (if the budget
-    allows) the edge; `fuel` visits at most -/
+/-- the cycle, unrolled: visit `t` does the work frames of node `t mod n`, then the noise, then
+    (if the budget allows) the edge; `fuel` visits at most.  Also returns the visit at which the
+    run ended (the cut-off the finite-recursion cases are placed around). -/
 def cycle (fam : Char) (edges : Array Edge) (budget : Option Nat) :
-    Nat → Nat → St → Marks → Pred
-  | 0, _, _, _ => .other "fuel"
+    Nat → Nat → St → Marks → Pred × Nat
+  | 0, t, _, _ => (.other "fuel", t)
   | fuel + 1, t, s, m =>
     match edges[t % edges.size]? with
-    | none => .other "empty"
+    | none => (.other "empty", t)
     | some e =>
       match runMarks s m (List.replicate (e.w + e.f) Ev.push) with
-      | .error p => p
+      | .error p => (p, t)
       | .ok (s0, m0) =>
         match (noiseOf e.noise).map (runNoise s0 m0) with
-        | none => .other "bad-noise"
-        | some (.error p) => p
+        | none => (.other "bad-noise", t)
+        | some (.error p) => (p, t)
         | some (.ok (s1, m1)) =>
-          if budget.any (t ≥ ·) then .ok m1
+          if budget.any (t ≥ ·) then (.ok m1, t)
           else
             match edgeEvents fam e.kind (t < edges.size) with
-            | none => .other "bad-edge"
+            | none => (.other "bad-edge", t)
             | some evs =>
               match runMarks s1 m1 evs with
-              | .error p => p
+              | .error p => (p, t)
               | .ok (s2, m2) => cycle fam edges budget fuel (t + 1) s2 m2
 
-def predictCycle (fam : Char) (edges : Array Edge) (limit : Nat) (budget : Option Nat) : Pred :=
+def predictCycleV (fam : Char) (edges : Array Edge) (limit : Nat) (budget : Option Nat) : Pred × Nat :=
   let s0 := init limit
   let m0 : Marks := ⟨s0.cur.depth, nativeDepth s0⟩
   match runMarks s0 m0 (entryEvents fam) with
-  | .error p => p
+  | .error p => (p, 0)
   | .ok (s1, m1) =>
     -- every visit adds at least one depth unit; the cap only matters when the limit is not clamped
     cycle fam edges budget (min (limit + (budget.getD 0) + 3) 5000) 0 s1 m1
+
+def predictCycle (fam : Char) (edges : Array Edge) (limit : Nat) (budget : Option Nat) : Pred :=
+  (predictCycleV fam edges limit budget).1
 
 /-- chain of `n` nested `super()` calls: the block, then `n` times super -/
 def predictSuper (n limit : Nat) : Pred :=
